@@ -211,6 +211,9 @@ let do_msg tref vs =
   let (s, p, idx) = lookup tref in
   match p with
   | None -> "nogen"
+  | Some _ when String.length vs > 1500000 ->
+    (* payloads of 2 MiB and more (the four-byte length class): compared with the reference implementation only *)
+    "pico=skipped"
   | Some progs ->
     let v = val_of_sx (parse_sx vs) in
     let nv = mx_norm s idx v in
